@@ -12,6 +12,7 @@ import checks_numeric
 import checks_ma
 import checks_combine
 import checks_log
+import checks_simplify
 
 CHECKS = {
     "C02": (lambda ctx: checks_core.run_core(ctx, "pre"), "model_checking"),
@@ -24,6 +25,7 @@ CHECKS = {
     "C15": (checks_ma.run_c15, "model_checking"),
     "C16": (checks_ma.run_c16, "model_checking"),
     "C17": (checks_combine.run, "model_checking"),
+    "C13": (checks_simplify.run, "exploration"),
     "C19": (checks_log.run, "exploration"),
     "C20": (checks_core.run_c20, "model_checking"),
     "C18": (checks_core.run_c18, "model_checking"),
@@ -197,6 +199,15 @@ META["C19"] = {
                  "(plus a small TLC model of the oracle itself)",
     "text": "Generated and shipped logs are parsed by the library; TLC recomputes status and plan from the tokenised lines and "
             "compares action list, order, arguments and the written plan file."}
+META["C13"] = {
+    "engine": "V", "design_ref": "DESIGN.md section 6 (C13), 10",
+    "note": "Equivalence is decided by exact evaluation on a rational grid inside TLC, not by algebra; coefficient magnitudes "
+            "are bounded by 32-bit integers. Known finding ConstantConditionPrinted.",
+    "technique": "trace validation: source and simplified conditions are both read by the TLA+ grammar and compared by exact "
+                 "evaluation on a grid of rational valuations (CondEquiv), plus structural checks",
+    "text": "Each simplified output is re-read by the library and by the specification; TLC checks it uses only binary "
+            "+ - * / and has the same truth value as the source conditions at every grid valuation (exactly, or outside the "
+            "rounding band when coefficients are not representable at the requested digits)."}
 NOT_YET = {}
 
 
